@@ -53,7 +53,19 @@ def unbounded_core(ctx):
     if p.returncode != 0 or not m:
         raise core.MachineryError("TLAPS did not prove LockCore: " + out[-600:])
     r = ctx.tlc("JobProtocol_Refines", cfg="MC_Refines.cfg", workers=4, timeout=900)
-    ctx.extra["unbounded_core"] = {"tlaps_obligations_proved": int(m.group(1)), "refinement_states": r.distinct,
+    apalache = None
+    if ctx.thorough and shutil.which("apalache-mc"):
+        # cross-check of the proof obligations' transcription with a second tool (4 processes): Init => IndInv,
+        # IndInv /\ Next => IndInv', IndInv => Safety
+        apalache = []
+        for init, inv, length in (("Init", "IndInv", 0), ("IndInv", "IndInv", 1), ("IndInv", "Safety", 0)):
+            q = subprocess.run(["apalache-mc", "check", "--cinit=CInit", f"--init={init}", f"--inv={inv}", f"--length={length}",
+                                f"--out-dir={work / 'apa'}", "LockCore.tla"], cwd=work, capture_output=True, text=True, timeout=1500)
+            ok = "The outcome is: NoError" in q.stdout
+            apalache.append({"init": init, "inv": inv, "length": length, "ok": ok})
+            if not ok:
+                raise core.MachineryError(f"Apalache does not confirm {init} => {inv}: " + q.stdout[-400:])
+    ctx.extra["unbounded_core"] = {"tlaps_obligations_proved": int(m.group(1)), "refinement_states": r.distinct, "apalache": apalache,
                                    "theorem": "LockCore!Correct: Spec => [](Mutex /\\ AtMostOnce /\\ NoPartialOut) for every Proc"}
 
 
